@@ -5,7 +5,8 @@ HARNESS_TIMEOUT = {"quick": 900, "thorough": 6 * 3600}
 TRUSTED_BASE = [
     "Coq 8.16.1 kernel (coqc), including vm_compute for witnesses/Examples/finite tables; no native_compute",
     "no Axiom/Parameter/Admitted in the development (grep-checked on every run); stdlib axioms only if listed by Print Assumptions below",
-    "translator tools/pyk2coq.py (python ast -> Gallina for the decision kernels in coq/Gen)",
+    "translator tools/pyk2coq.py (python ast -> Gallina for the decision kernels in coq/Gen) and tools/srcfacts.py (normal-form digests of every modelled definition)",
+    "translators of whole concurrent methods into small IRs, with their vocabulary tables and whitelists of dropped statements (printed in the generated files), and the IR semantics they are run on: tools/skel2coq.py + Model/CosIR.v / GateIR.v (C10, C11), tools/comb2coq.py + Model/CombIR.v (C14, C15), tools/loop2coq.py + Model/LoopIR.v (C03), the second proxy kernel + Model/Proxy2.v (C17)",
     "extraction with ExtrOcamlBasic only (bool, option, unit, list, prod, sumbool, sumor, andb, orb); nat/positive/Z/Q stay extracted datatypes; coq/Extract/driver.ml",
     "correspondence harness harness/detsched.py (baton scheduler, virtual clock, patched threading primitives and stdlib Future methods), harness/drive.py and the property's adapter/monitor",
     "modelled, not verified: CPython (GIL atomicity of single container operations), threading, concurrent.futures.Future (Base/Fut.v), logging",
